@@ -128,17 +128,22 @@ def _make_values(cfg, seed, abs_start, length):
     spec = _special_bits(kind, size)
     mask = (1 << (size * 8)) - 1
     raw = np.empty((length, nsub, ncomp), dtype="<u%d" % size)
-    for j in range(length):
-        k = abs_start + j
-        for c in range(nsub):
-            for q in range(ncomp):
-                h = _splitmix((k * 1000003 + c * 7919 + q * 104729 + seed * 2654435761) & _M64)
-                sel = (k * 3 + c * 5 + q * 7 + seed) % 11
-                if sel < len(spec) and sel < 6:
-                    v = spec[sel]
-                else:
-                    v = h & mask
-                raw[j, c, q] = v
+    if length:
+        with np.errstate(over="ignore"):
+            k = np.uint64(abs_start) + np.arange(length, dtype=np.uint64)
+            nspec = min(len(spec), 6)
+            spec_arr = np.array(spec[:nspec] + [0] * (11 - nspec), dtype=np.uint64)
+            for c in range(nsub):
+                for q in range(ncomp):
+                    x = k * np.uint64(1000003) + np.uint64((c * 7919 + q * 104729 + seed * 2654435761) & _M64)
+                    # splitmix64 (wrapping uint64 arithmetic == the & _M64 of the scalar definition)
+                    x = x + np.uint64(0x9E3779B97F4A7C15)
+                    x = (x ^ (x >> np.uint64(30))) * np.uint64(0xBF58476D1CE4E5B9)
+                    x = (x ^ (x >> np.uint64(27))) * np.uint64(0x94D049BB133111EB)
+                    h = x ^ (x >> np.uint64(31))
+                    sel = (((k % np.uint64(11)) * np.uint64(3) + np.uint64((c * 5 + q * 7 + seed) % 11)) % np.uint64(11)).astype(np.int64)
+                    v = np.where(sel < nspec, spec_arr[sel], h & np.uint64(mask))
+                    raw[:, c, q] = v.astype(raw.dtype)
     # raw holds little-endian bit patterns; for a big-endian target swap the bytes in
     # memory and reinterpret, so the *value bits* (incl. NaN payloads) are exactly `raw`
     rd = cfg.real_dtype()
